@@ -73,8 +73,7 @@ MENU = {
 READONLY = {"lint", "lint-json", "lint-lines", "lint-quiet", "lint-mp", "lint-file", "lint-from-src", "spdx", "supported-licenses", "help", "version", "annotate-help"}
 
 
-def build(recipe, dirname="c15"):
-    base = fresh_dir(dirname)
+def build(recipe, base):
     root = base / "proj"
     rec = {k: v for k, v in recipe.items() if not k.startswith("@")}
     materialise(root, rec)
@@ -150,7 +149,14 @@ def covered_under(root, directory, git):
 
 
 def step(recipe, cmd):
-    base, root = build(recipe)
+    from ..core import case_dir
+
+    with case_dir([recipe, cmd], "c15") as base:
+        return _step(recipe, cmd, base)
+
+
+def _step(recipe, cmd, base):
+    base, root = build(recipe, base)
     argv, cwd = MENU[cmd]
     git = "@git" in recipe
     allowed_dirs = ()
